@@ -151,8 +151,26 @@ class _Gen(object):
                 if not star and False:
                     return None
                 return [('EACH', nv, coll, [('SYM', '%s.__bytearray__()' % nv)])]
-            inner = self.value(body)
-            return None if inner is None else [('EACH', nv, coll, inner)]
+            # several yields per iteration are rendered one after the other
+            parts, depth, cur = [], 0, ''
+            for ch in body:
+                if ch in '([{':
+                    depth += 1
+                elif ch in ')]}':
+                    depth -= 1
+                if ch == ' ' and depth == 0:
+                    parts.append(cur)
+                    cur = ''
+                else:
+                    cur += ch
+            parts.append(cur)
+            inner = []
+            for part in [x for x in parts if x]:
+                got = self.value(part)
+                if got is None:
+                    return None
+                inner.extend(got)
+            return [('EACH', nv, coll, inner)]
         if star:
             mcoll = re.match(r'^(\$[\d.]+)\.', t)
             hint = None
